@@ -23,6 +23,7 @@ class VFS:
         self.sim = sim
         self.nodes = {ROOT: {"kind": "d", "ino": 1, "dev": 7, "mtime": 1000.0, "size": 0}}
         self.next_ino = 2
+        self.used_twins = set()
         self.poll = -1  # index of the snapshot walk in progress (0 = baseline at start())
         self.call = 0  # call index inside the current walk
         self.calls_per_poll = {}
@@ -46,8 +47,9 @@ class VFS:
             _, p, kind, twin = op
             if p in n or twin not in n or n.get(os.path.dirname(p), {}).get("kind") != "d" or n[twin]["dev"] != 7:
                 return False
-            if any(v["ino"] == n[twin]["ino"] and v["dev"] == 9 for v in n.values()):
-                return False
+            if (n[twin]["ino"], 9) in self.used_twins:
+                return False  # an identity is never given to a second entry (inode numbers are not recycled in the VFS)
+            self.used_twins.add((n[twin]["ino"], 9))
             n[p] = {"kind": kind, "ino": n[twin]["ino"], "dev": 9, "mtime": 1000.0, "size": 1 if kind == "f" else 0}
         elif k == "create":
             _, p, kind = op
